@@ -45,6 +45,10 @@ def handle (toks : List String) : String :=
     match floatTok? eps, parseFloatList? o, parseFloatList? s with
     | some eps, some o, some s => fmtO (corrPearson eps o s)
     | _, _, _ => "bad-op"
+  | ["spearman", eps, o, s] =>
+    match floatTok? eps, parseFloatList? o, parseFloatList? s with
+    | some eps, some o, some s => fmtO (corrSpearman eps o s)
+    | _, _, _ => "bad-op"
   | ["nonull", o, s] =>
     match parseFloatList? o, parseFloatList? s with
     | some o, some s =>
